@@ -110,6 +110,37 @@ def select_correspondence(ctx, drv, rng, n, on_case=None):
     return len(lines), None
 
 
+def conj_correspondence(ctx, drv, rng, n):
+    """`Findall.conjIsFalse` (when the callers drop a pair) vs the real compacting `LogicFormula.add_and`:
+    `n` random non-empty condition tuples over 6 atoms (half of them conditions really yielded by
+    `_select_sublist`). Returns `(n_cases, first_difference_or_None)`."""
+    from problog.formula import LogicFormula
+    f = LogicFormula()
+    for i in range(1, 7):
+        f.add_atom(i, 0.5)
+    lines, expect, conds = [], [], []
+    for _ in range(n):
+        if rng.random() < 0.5:
+            pairs = real_select(gen_list(rng, pool=6), f)
+            cond = pairs[rng.randrange(len(pairs))][1]
+        else:
+            cond = tuple(rng.choice([0, None, 1, 2, 3, -1, -2, -3, 4, -5, 6]) for _ in range(rng.randrange(1, 6)))
+        # fold every id into the 6 existing atoms, keeping the sign
+        cond = tuple(x if x in (0, None) else ((abs(x) - 1) % 6 + 1) * (1 if x > 0 else -1) for x in cond)
+        lines.append("conj (" + " ".join(render_node(x) for x in cond) + ")")
+        expect.append("F" if f.add_and(cond) is None else "ok")
+        conds.append(cond)
+        if ctx is not None:
+            ctx.count("conj " + expect[-1])
+    if drv is None:
+        return len(lines), {"op": None, "model": "driver unavailable", "impl": None}
+    got = drv.run(lines)
+    for line, g, e in zip(lines, got, expect):
+        if g != e:
+            return len(lines), {"op": line, "model": g, "impl": e}
+    return len(lines), None
+
+
 def _eval(node, val):
     if node is None:
         return False
